@@ -198,7 +198,18 @@ func do(j job, yield bool) string {
 		pub.KeyVal.Private = ""
 		res := ""
 		for it := 0; it < 12; it++ {
-			sum, err := intoto.InTotoVerify(j.layout, map[string]intoto.Key{pub.KeyID: pub}, filepath.Join(j.dir, "chain"), "", nil, nil, false)
+			var sum intoto.Metadata
+			var err error
+			if it%2 == 1 {
+				// the second entry point: its run directory (the job's own) is checked and entered
+				// (seeded change c16-iswritable-double-close)
+				rd := filepath.Join(j.dir, "rundir")
+				os.MkdirAll(rd, 0o755)
+				os.WriteFile(filepath.Join(rd, "present"), []byte("x"), 0o644)
+				sum, err = intoto.InTotoVerifyWithDirectory(j.layout, map[string]intoto.Key{pub.KeyID: pub}, filepath.Join(j.dir, "chain"), rd, "", nil, nil, false)
+			} else {
+				sum, err = intoto.InTotoVerify(j.layout, map[string]intoto.Key{pub.KeyID: pub}, filepath.Join(j.dir, "chain"), "", nil, nil, false)
+			}
 			if err != nil {
 				res += "err:" + err.Error() + ";"
 				continue
